@@ -101,7 +101,7 @@ REACH = [_S + 'getStrengthContributions', _S + 'combineStrengthContributions', _
          _G + 'grainGrowth', _G + 'constrainedGrowth', _G + 'Normalize', _G + 'postProcess', _G + 'updateCoupledModel',
          _G + 'computeZenerRadius', 'GenericModel.py:GenericModel.updateCoupledModels',
          'precipitation/KWNBase.py:PrecipitateBase.postProcess']
-MIN_NONTRIVIAL = {'quick': 60, 'thorough': 900}
+MIN_NONTRIVIAL = {'quick': 60, 'thorough': 1800}
 CASE_TIMEOUT = 600
 MAX_INCONCLUSIVE_FRACTION = 0.0
 ASSUMPTIONS = ['"for all" is sampled: random parameter sets, distributions and short coupled runs',
@@ -110,9 +110,9 @@ ASSUMPTIONS = ['"for all" is sampled: random parameter sets, distributions and s
                'grid parameters of the grain model are drawn in range (minBins <= bins <= maxBins)',
                'coupled clause on a fresh grain model (clock 0) attached before the first host step']
 
-N_FORMULA = {'quick': 50, 'thorough': 750}
-N_GRAIN = {'quick': 20, 'thorough': 300}
-N_COUPLED = {'quick': 4, 'thorough': 60}
+N_FORMULA = {'quick': 50, 'thorough': 1500}
+N_GRAIN = {'quick': 20, 'thorough': 600}
+N_COUPLED = {'quick': 4, 'thorough': 120}
 SETS_PER_BLOCK = 100
 
 TOL_ARITH = 1e-12        # oracle repeats the arithmetic
@@ -335,7 +335,7 @@ def _check_contributions(R, sm, p, r, L, phase, ri):
     for name, arr in (('weak', weak), ('strong', strong), ('orowan', oro)):
         if arr.size == 0:
             continue
-        a2 = np.atleast_2d(arr) if name != 'orowan' else np.atleast_1d(arr)[None, :]
+        a2 = arr.reshape(-1, npts)            # (mechanisms, points); Orowan: one row
         bad = ~np.isfinite(a2) | (a2 < 0)
         if not bad.any():
             R.count('contrib_nonneg_finite', arr.size)
